@@ -62,11 +62,30 @@ def run_tier_a(prop, harness, tier, quick_s, thorough_s, level_text, real, stub,
                              "--hash-out", os.path.join(WORK, "%s-hash-%d.bin" % (harness, w))] + list(extra_args)})
     res = parallel(cmds)
     sums = []
+    aborted = []
     for w, (rc, out, err) in enumerate(res):
         sm = parse_summary(out)
         if sm is None or rc not in (0, 1):
+            # The worker died. If it left a replay file (violation found, then the process
+            # aborted while minimising) or an abort note (a panic that could not unwind through
+            # an extern "C" runtime entry), that is a violation, not a harness error.
+            vio_file = os.path.join(WORK, "%s-vio-%d.json" % (harness, w))
+            note = vio_file + ".abort"
+            if os.path.exists(vio_file):
+                v = json.load(open(vio_file))
+                aborted.append({"class": v["violation_class"], "file": vio_file, "index": v["index"], "message": v["violation"]})
+                continue
+            if rc < 0 and os.path.exists(note):
+                lines = open(note).read().splitlines()
+                idx, msg = int(lines[0]), (lines[1] if len(lines) > 1 else "abort")
+                p = run([binary, "--seed", str(s), "--emit-scenario", str(idx), "--out", vio_file, "--message", msg])
+                if p.returncode == 0 and os.path.exists(vio_file):
+                    aborted.append({"class": "abort", "file": vio_file, "index": idx, "message": msg})
+                    continue
             harness_error("worker %d of %s crashed rc=%s: %s" % (w, harness, rc, err.decode(errors="replace")[-2000:]))
         sums.append(sm)
+    if not sums:
+        sums = [{"executions": 0, "choice_points": 0, "preemptions": 0, "probes": {}, "faults": {}, "policies": {}, "samples": [], "violation": None, "wall_ms": 1}]
     # merge
     tot = lambda k: sum(x[k] for x in sums)
     merged = {}
@@ -86,7 +105,7 @@ def run_tier_a(prop, harness, tier, quick_s, thorough_s, level_text, real, stub,
             os.remove(p)
     wall = time.time() - t0
     execs = tot("executions")
-    violations = [x["violation"] for x in sums if x["violation"]]
+    violations = [x["violation"] for x in sums if x["violation"]] + aborted
     exit_code = 0
     reported = []
     if violations:
@@ -99,7 +118,7 @@ def run_tier_a(prop, harness, tier, quick_s, thorough_s, level_text, real, stub,
             rp = save_replay(prop, v["file"])
             # confirm in a fresh process
             p = run([binary, "--replay", rp])
-            if p.returncode != 1:
+            if p.returncode != 1 and not (p.returncode < 0):
                 harness_error("violation did not reproduce from its replay file %s (rc=%d): %s" % (rp, p.returncode, p.stdout.decode()[-500:]))
             key = "%s:%s" % (harness, v["class"])
             k = match_known(prop, key)
@@ -146,4 +165,7 @@ def replay_tier_a(harness, path):
     binary = os.path.join(rel, harness)
     p = run([binary, "--replay", path])
     sys.stdout.write(p.stdout.decode())
+    if p.returncode < 0:
+        print("REPLAY-RESULT violation class=abort (signal %d: a panic inside an extern \"C\" runtime entry cannot unwind)" % -p.returncode)
+        return 1
     return p.returncode if p.returncode in (0, 1) else 2
